@@ -37,4 +37,13 @@ def opSolverParams (j : Json) : Json :=
     Json.mkObj [("dict", Json.arr (r.kv.map fun kv => Json.arr #[Json.str kv.1, Json.str kv.2]).toArray)]
   | _, _, _ => errJson "parse"
 
+/-- op `register`: `Solver.add_structure` (parameter part) -/
+def opRegister (j : Json) : Json :=
+  match (j.getObjVal? "table").toOption >>= parsePairsStr, (j.getObjVal? "parent").toOption >>= parsePairsStr,
+        (j.getObjVal? "child").toOption >>= parsePairsStr with
+  | some t, some p, some c =>
+    let r := registerDefaults t (⟨p⟩ : Dict String) ⟨c⟩
+    Json.mkObj [("dict", Json.arr (r.kv.map fun kv => Json.arr #[Json.str kv.1, Json.str kv.2]).toArray)]
+  | _, _, _ => errJson "parse"
+
 end Driver
